@@ -38,3 +38,5 @@
 ; statefun: newStoreErr storeErr
 (define-fun newStoreErr ((now Bool) (before Bool)) Bool (and now (not before)))
 ; ghost: txStopped (Array Val Bool)
+; struct: query.Query
+; ghost: iterQ S_query_Query
